@@ -27,6 +27,22 @@ def ev(t, env):
         return -ev(t[1], env)
     if op == 'pow':
         return ev(t[1], env) ** int(t[2])
+    if op == 'vpow':
+        return np.power(ev(t[1], env), ev(t[2], env))
+    if op == 'fn':
+        return env[t[1]](ev(t[2], env))
+    if op == 'sum':
+        lo, hi = int(round(float(ev(t[2], env)))), int(round(float(ev(t[3], env))))
+        total = 0.0
+        # summation variable as a leading axis, in blocks to bound memory
+        step = 256
+        for a in range(lo, hi + 1, step):
+            idx = np.arange(a, min(a + step, hi + 1), dtype=float)
+            e = dict(env)
+            inner = ev(t[4], _lift(e, t[1], idx))
+            inner = np.asarray(inner, dtype=float)
+            total = total + (inner.sum(axis=0) if inner.ndim > 0 and inner.shape[0] == len(idx) else inner * len(idx))
+        return total
     if op == 'exp':
         return np.exp(ev(t[1], env))
     if op == 'ln':
@@ -36,6 +52,16 @@ def ev(t, env):
     if op == 'sin':
         return np.sin(ev(t[1], env))
     raise ValueError('unknown term head %r' % (op,))
+
+
+def _lift(env, name, idx):
+    """bind the summation variable to a column so that it broadcasts against array-valued variables"""
+    nd = 0
+    for v in env.values():
+        if isinstance(v, np.ndarray):
+            nd = max(nd, v.ndim)
+    env[name] = idx.reshape((-1,) + (1,) * nd)
+    return env
 
 
 def variables(t, acc=None):
